@@ -207,7 +207,8 @@ type StreamEv struct {
 	Derived  bool            // produced by a reset/query answer rather than by the service directly
 	EmitStep int
 	EmitCut  int
-	DlvCut   int // -1 until delivered to the gateway
+	DlvCut   int  // -1 until delivered to the gateway
+	Via      *Req // derived entries: the request whose answer makes the gateway produce it
 	DlvSeq   uint64
 }
 
